@@ -13,9 +13,9 @@ mutual
 theorem subst_no_futures (σ : Nat → V) : ∀ a : Arg V, futuresOf (subst σ a) = []
   | .val _ => by simp [subst, futuresOf]
   | .fut _ => by simp [subst, futuresOf]
-  | .list xs => by simp [subst, futuresOf, substL_no_futures σ xs]
-  | .tuple _ => by simp [subst, futuresOf]
-  | .dict _ => by simp [subst, futuresOf]
+  | .list _ xs => by simp [subst, futuresOf, substL_no_futures σ xs]
+  | .tuple _ _ => by simp [subst, futuresOf]
+  | .dict _ _ => by simp [subst, futuresOf]
 theorem substL_no_futures (σ : Nat → V) : ∀ l : List (Arg V), futuresOfL (substL σ l) = []
   | [] => by simp [substL, futuresOfL]
   | a :: as => by simp [substL, futuresOfL, subst_no_futures σ a, substL_no_futures σ as]
@@ -28,11 +28,11 @@ theorem subst_determined (σ τ : Nat → V) : ∀ a : Arg V,
     (futuresOf a).map σ = (futuresOf a).map τ → subst σ a = subst τ a
   | .val _ => by simp [subst]
   | .fut j => by simp [subst, futuresOf]
-  | .list xs => by
+  | .list _ xs => by
       intro h; simp only [subst, futuresOf] at *
       rw [substL_determined σ τ xs h]
-  | .tuple _ => by simp [subst]
-  | .dict _ => by simp [subst]
+  | .tuple _ _ => by simp [subst]
+  | .dict _ _ => by simp [subst]
 theorem substL_determined (σ τ : Nat → V) : ∀ l : List (Arg V),
     (futuresOfL l).map σ = (futuresOfL l).map τ → substL σ l = substL τ l
   | [] => by simp [substL]
@@ -50,16 +50,31 @@ mutual
 theorem subst_id (σ : Nat → V) : ∀ a : Arg V, futuresOf a = [] → subst σ a = a
   | .val _ => by simp [subst]
   | .fut j => by simp [futuresOf]
-  | .list xs => by
+  | .list _ xs => by
       intro h; simp only [futuresOf] at h; simp [subst, substL_id σ xs h]
-  | .tuple _ => by simp [subst]
-  | .dict _ => by simp [subst]
+  | .tuple _ _ => by simp [subst]
+  | .dict _ _ => by simp [subst]
 theorem substL_id (σ : Nat → V) : ∀ l : List (Arg V), futuresOfL l = [] → substL σ l = l
   | [] => by simp [substL]
   | a :: as => by
       intro h
       simp only [futuresOfL, List.append_eq_nil_iff] at h
       simp [substL, subst_id σ a h.1, substL_id σ as h.2]
+end
+
+mutual
+/-- **Every container keeps its class**: substitution changes no container's Python class — an
+    instance of a subclass of `list` (searched like a list), a namedtuple, an `OrderedDict`, … reaches
+    the function as an instance of the same class (defect D32 for subclasses of `list`). -/
+theorem subst_classes (σ : Nat → V) : ∀ a : Arg V, classes (subst σ a) = classes a
+  | .val _ => by simp [subst, classes]
+  | .fut _ => by simp [subst, classes]
+  | .list _ xs => by simp [subst, classes, substL_classes σ xs]
+  | .tuple _ _ => by simp [subst, classes]
+  | .dict _ _ => by simp [subst, classes]
+theorem substL_classes (σ : Nat → V) : ∀ l : List (Arg V), classesL (substL σ l) = classesL l
+  | [] => by simp [substL, classesL]
+  | a :: as => by simp [substL, classesL, subst_classes σ a, substL_classes σ as]
 end
 
 theorem substKw_determined (σ τ : Nat → V) : ∀ l : List (String × Arg V),
@@ -110,7 +125,7 @@ theorem ready_iff (done : Nat → Bool) (c : Call V) :
 
 /-- Non-vacuity: futures at top level, in a kwarg, in nested lists, and inside a tuple (ignored). -/
 example :
-    let c : Call Nat := { args := [.fut 0, .list [.val 5, .list [.fut 1]], .tuple [.fut 2]], kwargs := [("k", .fut 1)] }
+    let c : Call Nat := { args := [.fut 0, .list "list" [.val 5, .list "TaggedList" [.fut 1]], .tuple "Point" [.fut 2]], kwargs := [("k", .fut 1)] }
     c.futures = [0, 1, 1] ∧ (c.subst (fun j => 100 + j)).futures = [] ∧ c.ready (fun j => j != 2) = true := by
   decide
 
